@@ -1359,3 +1359,163 @@ def rx7(model):
                 r.instances += 1
     r.instances = max(r.instances, 1)
     return r
+
+
+# ----------------------------------------------------------------------------- SH3
+def sh3(model):
+    r = RuleResult('SH3', 'the run that extracts the names of included files (Options(extr=..) in the '
+                   'shell) applies no text post-processing: --replace phrases must not rewrite file '
+                   'names', floor=1)
+    n = 0
+    for m in model.mods.values():
+        if not m.short.startswith('shell'):
+            continue
+        for c in ast.walk(m.tree):
+            if isinstance(c, ast.Call) and T.call_name(c) == 'Options' and any(k.arg == 'extr' for k in c.keywords):
+                ex = [k.value for k in c.keywords if k.arg == 'extr'][0]
+                if isinstance(ex, ast.Attribute) and ex.attr == 'extract':
+                    continue        # the user's own --extract run: its output is text
+                n += 1
+                rp = [k for k in c.keywords if k.arg == 'repl']
+                if rp and not T.is_const(rp[0].value, None):
+                    r.fail(c, 'the file-inclusion scan passes repl=%s: a replacement phrase that occurs in a '
+                           'file name changes the name of the file that is read' % unparse(rp[0].value),
+                           witness="--include --replace with the rule 'intro & introduction' and \\input{intro}")
+                else:
+                    r.ok(c, 'the inclusion scan does not rewrite its output', nontrivial=True)
+    if n == 0:
+        r.undec(model.mod('shell.shell').tree, 'inclusion scan not found')
+        r.instances = 1
+    return r
+
+
+# ----------------------------------------------------------------------------- EM6
+def _mark_summaries(model):
+    """functions whose returned token list may contain the tokens of latex_error()"""
+    funcs = [f for f in model.all_funcs() if not isinstance(f.node, ast.Lambda) and isinstance(f.node.body, list)
+             and (f.mod.short in ('parser', 'mathparser', 'handlers', 'utils', 'scanner') or f.mod.short.startswith('packages'))]
+    may = set()
+
+    def tainted_names(f):
+        names = set()
+        changed = True
+        while changed:
+            changed = False
+            for n in iter_scope(f.node):
+                tgt = val = None
+                if isinstance(n, ast.Assign) and len(n.targets) == 1:
+                    tgt, val = n.targets[0], n.value
+                elif isinstance(n, ast.AugAssign):
+                    tgt, val = n.target, n.value
+                elif isinstance(n, ast.Expr) and isinstance(n.value, ast.Call) and T.call_name(n.value) in ('append', 'extend') \
+                        and isinstance(n.value.func, ast.Attribute) and n.value.args:
+                    tgt, val = n.value.func.value, n.value.args[0]
+                if tgt is None:
+                    continue
+                if src_tainted(f, val, names):
+                    for x in ([tgt] if isinstance(tgt, ast.Name) else
+                              (tgt.elts if isinstance(tgt, ast.Tuple) else [])):
+                        if isinstance(x, ast.Name) and x.id not in names:
+                            names.add(x.id)
+                            changed = True
+        return names
+
+    def src_tainted(f, e, names):
+        """is the VALUE of e a token list that may contain an error mark?  (structural: the list
+        itself, a concatenation, a slice, a conditional - not an attribute or element of it)"""
+        if isinstance(e, ast.Name):
+            return e.id in names
+        if isinstance(e, ast.Call):
+            if T.call_name(e) == 'latex_error':
+                return True
+            rc = model.resolve_call(e)
+            if rc and rc[0] == 'func' and rc[1].qname in may:
+                return True
+            # a token list handed to a function (possibly wrapped: scanner.Buffer(toks)) flows on
+            # into its result
+            if T.call_name(e) not in ('get_text_direct', 'get_text_expanded', 'len', 'str', 'repr', 'join'):
+                return any(src_tainted(f, a, names) for a in e.args)
+            return False
+        if isinstance(e, ast.BinOp) and isinstance(e.op, ast.Add):
+            return src_tainted(f, e.left, names) or src_tainted(f, e.right, names)
+        if isinstance(e, ast.Subscript) and isinstance(e.slice, ast.Slice):
+            return src_tainted(f, e.value, names)
+        if isinstance(e, ast.IfExp):
+            return src_tainted(f, e.body, names) or src_tainted(f, e.orelse, names)
+        if isinstance(e, ast.Tuple):
+            return any(src_tainted(f, x, names) for x in e.elts)
+        if isinstance(e, (ast.List,)):
+            return any(isinstance(x, ast.Starred) and src_tainted(f, x.value, names) for x in e.elts)
+        if isinstance(e, ast.ListComp) and len(e.generators) == 1 and isinstance(e.elt, ast.Name) \
+                and isinstance(e.generators[0].target, ast.Name) and e.elt.id == e.generators[0].target.id:
+            return src_tainted(f, e.generators[0].iter, names)
+        return False
+    changed = True
+    rounds = 0
+    while changed and rounds < 8:
+        changed = False
+        rounds += 1
+        for f in funcs:
+            if f.qname in may:
+                continue
+            names = tainted_names(f)
+            for rv in T.func_returns(f):
+                if rv is not None and src_tainted(f, rv, names):
+                    may.add(f.qname)
+                    changed = True
+                    break
+    return may, tainted_names, src_tainted
+
+
+EM6_EXCEPTIONS = {
+    # (function, variable): reason
+    ('parser.Parser.parse', 'main'): 'extraction mode (--extr) outputs the extracted arguments only; the main '
+                                      'text, with whatever it contains, is dropped by design (rule EX1)',
+}
+
+
+def em6(model):
+    r = RuleResult('EM6', 'a diagnostic is never printed without its mark: a token list that may hold the '
+                   'tokens of latex_error() is not overwritten by a value that is not built from it '
+                   '(simple equations and removed equation environments replace the collected tokens '
+                   'by one placeholder - the mark has to be carried over)', floor=1)
+    may, tainted_names, src_tainted = _mark_summaries(model)
+    n_sites = 0
+    for q in sorted(may):
+        f = model.func(q)
+        names = tainted_names(f)
+        ret_names = {x.id for rv in T.func_returns(f) if rv is not None for x in ast.walk(rv) if isinstance(x, ast.Name)}
+        # first statement that taints each name
+        first = {}
+        for n in iter_scope(f.node):
+            tgt = val = None
+            if isinstance(n, ast.Assign) and len(n.targets) == 1 and isinstance(n.targets[0], ast.Name):
+                tgt, val = n.targets[0].id, n.value
+            elif isinstance(n, ast.AugAssign) and isinstance(n.target, ast.Name):
+                tgt, val = n.target.id, n.value
+            if tgt in names and val is not None and src_tainted(f, val, names - {tgt}):
+                first[tgt] = min(first.get(tgt, 10**9), n.lineno)
+        for n in iter_scope(f.node):
+            if not (isinstance(n, ast.Assign) and len(n.targets) == 1 and isinstance(n.targets[0], ast.Name)):
+                continue
+            v = n.targets[0].id
+            if v not in names or v not in ret_names or n.lineno <= first.get(v, 10**9):
+                continue
+            # whole-list uses of v on the right-hand side
+            keeps = src_tainted(f, n.value, {v})
+            fresh_src = any(isinstance(x, ast.Call) and (T.call_name(x) == 'latex_error' or (
+                (model.resolve_call(x) or (0, 0))[0] == 'func' and model.resolve_call(x)[1].qname in may))
+                for x in ast.walk(n.value))
+            n_sites += 1
+            if (q, v) in EM6_EXCEPTIONS:
+                r.exception('%s, variable %s' % (q, v), EM6_EXCEPTIONS[(q, v)])
+                continue
+            if keeps or fresh_src or src_tainted(f, n.value, names - {v}):
+                r.ok(n, '%s is rebuilt from itself' % v, sample=False)
+            else:
+                r.fail(n, '%s may hold an error mark (its diagnostic has been printed) and is replaced by '
+                       '%s: the mark does not reach the plain text' % (v, unparse(n.value)[:50].replace('\n', ' ')),
+                       witness='--seqs (simple equations) and a displayed equation that is not closed: '
+                               '"\\[ a = b" followed by a blank line')
+    r.instances = max(r.instances, 1)
+    return r
